@@ -15,7 +15,10 @@ class C16(scen.WorldProp):
                 "Wheatley.C16.no_calls_tick",
                 "Wheatley.C16.no_calls_go",
                 "Wheatley.C16.late_go_flush",
-                "Wheatley.C16.rounds_carry_no_stale_calls"]
+                "Wheatley.C16.rounds_carry_no_stale_calls",
+                "Wheatley.C16.cli_no_calls", "Wheatley.C16.cli_comp_with_start_row"]
+    # the command line: what of the built configuration this property is about
+    cli_fields = ['call_comps', 'source']
     level_text = ("theorems: a composition generator yields the payload's rows in order then rounds for ever; calls "
                   "attached to a row are exactly the payload's (minus 'Stand'); with calls off no call is ever emitted "
                   "(arbitrary payloads / states). correspondence: fake CompLib payloads (stage 4-10, 1-3 opening "
